@@ -416,4 +416,5 @@ def replay(path):
         bad = [L for L in range(1, c["length"] + 1) if allowed_from_ranges(lengths, L) != int(L * c["rate"])]
         print("ranges", lengths, "wrong at", bad[:5])
         return 1 if bad else 0
-    return 1
+    import sys
+    return common.replay_by_rerun(sys.modules[__name__], PROP, path)
